@@ -205,6 +205,18 @@ void H::nested(int obj, int arg)
   if (m) m->v(arg); else if (it->second.kind == 'N') it->second.n->v(arg);
 }
 
+void H::destroy(int obj)
+{
+  // from inside a side effect: the object is destroyed while one of its mock functions is executing
+  H::emit("D{ %d", obj);
+  struct Close { ~Close() { H::emit("D}"); } } close;
+  auto it = g_objs.find(obj);
+  if (it == g_objs.end()) return;
+  Obj o = it->second;
+  g_objs.erase(it);
+  delete o.m; delete o.n; delete o.wm; delete o.wp;
+}
+
 static void autoq()
 {
   for (auto& kv : g_exps)
